@@ -3,7 +3,7 @@
 From Coq Require Import ZArith List Lia Bool.
 From Coq Require Import ZifyBool.
 From RTP Require Import Base.Bits Base.Res Base.ListX Model.RtpPacket Model.Sequencer Model.ExtCodecs Model.Ntp
-  Model.Packetizer Proofs.C07_Sequencer Proofs.C06_Packetizer.
+  Model.Packetizer Proofs.C07_Sequencer Proofs.C01_Roundtrip Proofs.C06_Packetizer.
 Import ListNotations.
 Open Scope Z_scope.
 
@@ -229,3 +229,98 @@ Section Histories.
     apply IH; [|exact Hb2]. unfold step_ok in Hstep. destruct (pstep p o) as [p1 out]. apply Hstep.
   Qed.
 End Histories.
+
+(* ---- timestamps over whole histories: every Packetize call with a non-empty payload advances the
+   timestamp by its sample count (also when the payloader returns nothing), SkipSamples by the skipped
+   samples, nothing else moves it - modulo 2^32 ---- *)
+Section Timestamps.
+  Variable pay : Z -> list Z -> list (list Z).
+
+  Definition ts_delta (o : pop) : Z :=
+    match o with
+    | OPacketize (_ :: _) s _ => s
+    | OSkip n => n
+    | _ => 0
+    end.
+
+  Fixpoint run_ops (p : pktz) (ops : list pop) : pktz :=
+    match ops with [] => p | o :: t => run_ops (fst (pstep pay p o)) t end.
+
+  Definition ts_ok (p : pktz) : Prop := 0 <= pz_ts p < 4294967296.
+
+  Lemma step_ts p o : ts_ok p ->
+    pz_ts (fst (pstep pay p o)) = (pz_ts p + ts_delta o) mod 4294967296 /\ ts_ok (fst (pstep pay p o)).
+  Proof.
+    intros Hts. unfold ts_ok in *.
+    assert (Hsame : pz_ts p = (pz_ts p + 0) mod 4294967296) by (rewrite Z.add_0_r, Z.mod_small; lia).
+    destruct o as [pl s now|n|n|v]; cbn [pstep ts_delta].
+    - destruct pl as [|b0 rest]; [cbn [packetize fst]; split; [exact Hsame|exact Hts]|].
+      unfold packetize.
+      destruct (build_packets p (pz_seq p) _) as [s' pkts].
+      assert (Hu : u32 (pz_ts p + s) = (pz_ts p + s) mod 4294967296) by reflexivity.
+      assert (Hr : 0 <= (pz_ts p + s) mod 4294967296 < 4294967296) by (apply Z.mod_pos_bound; lia).
+      destruct pkts as [|pk0 pkt]; [cbn [fst pz_ts]; rewrite Hu; split; [reflexivity|exact Hr]|].
+      destruct (pz_abs p =? 0); [cbn [fst pz_ts]; rewrite Hu; split; [reflexivity|exact Hr]|].
+      destruct (abs_send_marshal _) as [b|e|]; try (cbn [fst pz_ts]; rewrite Hu; split; [reflexivity|exact Hr]).
+      destruct (set_last_extension _ _ _); cbn [fst pz_ts]; rewrite Hu; (split; [reflexivity|exact Hr]).
+    - unfold generate_padding. destruct (padding_packets p (pz_seq p) (Z.to_nat n)) as [s' ps].
+      cbn [fst pz_ts]. split; [exact Hsame|exact Hts].
+    - cbn [fst skip_samples pz_ts]. split; [reflexivity|apply Z.mod_pos_bound; lia].
+    - cbn [fst enable_abs_send_time pz_ts]. split; [exact Hsame|exact Hts].
+  Qed.
+
+  Theorem history_timestamp : forall ops p, ts_ok p ->
+    pz_ts (run_ops p ops) = (pz_ts p + fold_right Z.add 0 (map ts_delta ops)) mod 4294967296.
+  Proof.
+    induction ops as [|o t IH]; intros p Hts.
+    - cbn [run_ops map fold_right]. unfold ts_ok in Hts. rewrite Z.add_0_r, Z.mod_small; lia.
+    - cbn [run_ops map fold_right]. destruct (step_ts p o Hts) as [Hs Hok].
+      rewrite (IH _ Hok), Hs. rewrite Zplus_mod_idemp_l. f_equal. lia.
+  Qed.
+End Timestamps.
+
+(* ---- "... and parses back equal": every packet of a train is a well-formed packet in the sense of
+   C01 - with the abs-send-time element on the last one, in either form - so C01_packet_roundtrip
+   applies to it ---- *)
+Definition pktz_ok (p : pktz) : Prop :=
+  0 <= pz_pt p < 128 /\ 0 <= pz_ts p < 4294967296 /\ 0 <= pz_ssrc p < 4294967296.
+
+Lemma train_wf p : pktz_ok p -> forall frags e, Forall wf_packet (expected_train p e frags).
+Proof.
+  intros (Hpt & Hts & Hss). induction frags as [|f t IH]; intros e; cbn [expected_train]; constructor; [|apply IH].
+  unfold wf_packet, wf_header, wf_exts.
+  cbn [hdr version payload_type sequence_number timestamp ssrc csrc extension extension_profile extensions padding padding_size].
+  pose proof (Z.mod_pos_bound (e + 1) 65536 ltac:(lia)).
+  change (zlen (@nil Z)) with 0.
+  repeat split; try lia; try constructor.
+Qed.
+
+Lemma with_abs_wf id b pk : 1 <= id <= 255 -> zlen b = 3 -> wf_packet pk -> extension (hdr pk) = false ->
+  wf_packet (with_abs id b pk).
+Proof.
+  intros Hid Hb (Hh & Hp) Hx. destruct Hh as (H1 & H2 & H3 & H4 & H5 & H6 & H7 & _).
+  unfold with_abs, with_exts, abs_profile. split.
+  - unfold wf_header. cbn [hdr version payload_type sequence_number timestamp ssrc csrc].
+    repeat (split; [assumption|]). unfold wf_exts, ext_block_size.
+    cbn [extension extension_profile extensions].
+    destruct (id <=? 14) eqn:E14.
+    + change (profile_one_byte =? profile_one_byte) with true. cbn [fold_left epayload]. rewrite Hb. split; [|cbn; lia].
+      left. split; [reflexivity|]. constructor; [|constructor]. unfold wf_ext1. cbn [eid epayload]. rewrite Hb. lia.
+    + change (profile_two_byte =? profile_one_byte) with false. change (profile_two_byte =? profile_two_byte) with true.
+      cbn [fold_left epayload]. rewrite Hb. split; [|cbn; lia].
+      right. left. split; [reflexivity|]. constructor; [|constructor]. unfold wf_ext2. cbn [eid epayload]. rewrite Hb. lia.
+  - cbn [hdr padding padding_size]. exact Hp.
+Qed.
+
+Theorem train_abs_wf p e frags id b : pktz_ok p -> 1 <= id <= 255 -> zlen b = 3 ->
+  forall init lastp, expected_train p e frags = init ++ [lastp] ->
+  Forall wf_packet (init ++ [with_abs id b lastp]).
+Proof.
+  intros Hp Hid Hb init lastp Hsplit.
+  pose proof (train_wf p Hp frags e) as Hw. rewrite Hsplit in Hw.
+  apply Forall_app in Hw as [Hi Hl]. apply Forall_cons_iff in Hl as [Hl _].
+  apply Forall_app. split; [exact Hi|]. constructor; [|constructor].
+  pose proof (train_hdrs p frags e) as Hh. rewrite Hsplit in Hh.
+  apply Forall_app in Hh as [_ Hh]. apply Forall_cons_iff in Hh as [(Hx & _) _].
+  apply with_abs_wf; assumption.
+Qed.
